@@ -1,12 +1,123 @@
-# Claims table for MANIFEST.json (exec'd by mkmanifest.py). Keep in step with DESIGN.md §0/§4.
+# Claims table for MANIFEST.json (exec'd by mkmanifest.py). Keep in step with DESIGN.md §10/§11.
 
-PENDING = "contracts for this property are not yet under proof in this commit (machinery is being built; see DESIGN.md section 8 for the build order); nothing is claimed until its obligations discharge on the unchanged tree"
+COMMON = (" Obligations are generated on every run from the go/ssa of /repo's working tree (contracts are //@ comments in "
+          "<pkg>/verif_contracts*.go and /verif/specs) and must all come back unsat; genuine defects of the unchanged tree are "
+          "listed in known_findings.json (re-proved outside their regions), withdrawn obligations in unclaimed.json; both are "
+          "repeated in the evidence.")
+NOTE_COMMON = (" Trusted: SSA builder, the SSA->SMT translation, z3/cvc5, assumed contracts on dependencies (extern/interface/trusted, "
+               "listed per run in evidence.coverage.trusted_base), prelude axioms in /verif/specs/*.smt2, mathematical integers outside "
+               "'overflow checked' functions. Counter-models are replayed on the real code only for safety and frame obligations.")
 
+claim("C01",
+      "Proof, for all inputs incl. offsets, holes and spare capacity, that the slice-backed set representations (String, Bytes, Array) and the "
+      "set-operator dispatch compute the mathematical result: Has/With/Without/Count against pointwise membership `mem` and counting functions; "
+      "GenericSet basics, Intersect/Difference/SymmetricDifference and most Union branches over an assumed finite-set contract of the frozen library; "
+      "builders asString/asArray/asBytes as functions of the set of tuples given." + COMMON,
+      "Not decided: both-UnionSet loops of Intersect/Difference, Union's Map.Merge branch, Dict/Relation/UnionSet methods beyond Count, power set, "
+      "subset comparisons, =>/where (frozen-backed code; see DESIGN 11)." + NOTE_COMMON,
+      "DESIGN.md 4.C01, 10, 11")
+claim("C02",
+      "Proof that every constructor/operator under contract re-establishes the canonical-form invariant (`validString/validBytes/validArray/validSet`, "
+      "incl. hole counts = number of negative runes / nil items) and that Equal of sugar tuples, Number, String, GenericSet refines the extensional `eq`; "
+      "violations of canonical form on the unchanged tree (Without next to a hole, negative @char) are known findings with regions." + COMMON,
+      "Hash/Equal coherence, UnionSet/Dict/Relation/Array/Bytes Equal and NewOffsetArray's postconditions are not decided." + NOTE_COMMON,
+      "DESIGN.md 4.C02, 10, 11")
+claim("C03",
+      "Frame proof (`assigns fresh-only`/`nothing`): for every function under contract that stores, appends or copies, no heap row that existed at entry "
+      "differs at any return, for all capacities and aliasing of the inputs (the model writes in place when len+n<=cap). Found and fixed: String.with / "
+      "Bytes.with appending into shared spare capacity. Composition over branching histories is the frame rule." + COMMON,
+      "Covers the functions that carry an assigns clause (listed in the evidence); functions calling a callee without a frame contract get the unprovable "
+      "obligation frame.unknown-callee instead of a vacuous pass. Memory inside the frozen library is assumed immutable." + NOTE_COMMON,
+      "DESIGN.md 4.C03, 10")
+claim("C04",
+      "Proof of the positional join machinery against set/sequence definitions: valueProjector algebra, projectedValues, NamesSlice set operations, "
+      "createMode's exact mode bits, for every mode the join body chosen by positionalRelation.Join has the required shape, and the eight operators' "
+      "partitionNames closures produce the documented headings; Relation.Join's re-sugaring crash is a known finding." + COMMON,
+      "The five join bodies are trusted (frame + width only), so the relational postcondition rows(result)=definition is NOT proved; nest/unnest/rank, "
+      "GenericJoin and the combine closures are not under contract." + NOTE_COMMON,
+      "DESIGN.md 4.C04, 10, 11")
+claim("C05",
+      "Proof that CallAll of String/Bytes/Array adds exactly the value paired with the key (ghost builder set), SetCall/Call implement the exactly-one rule, "
+      "SafeTailExpr takes the fallback exactly in the no-value case, >>/>>> keep keys, offsets and holes for Array/Bytes/String, ++ and n\\seq shift "
+      "indices as specified, NewOffset* constructors; deviations on the unchanged tree (holes called or mapped, fractional offsets, sparse ++) are known findings." + COMMON,
+      "Dict/Relation/UnionSet/Closure CallAll and the Dict/Set branches of >> are safety+frame only; transformer callbacks are assumed pure." + NOTE_COMMON,
+      "DESIGN.md 4.C05, 10")
+claim("C06",
+      "Refinement proof of every Kind() and of Less for numbers, the four sugar tuples, String, Bytes, Array, EmptySet, TrueSet against axioms defining "
+      "`less`/`kind`, lemmas for irreflexivity, asymmetry, trichotomy w.r.t. `eq`, transitivity and the cross-kind rule, and the derived operators "
+      "(< > <= >=, ValueLess, dictEntryTupleSort, projectedValues.Less). Incomparable pairs of the unchanged tree are known findings." + COMMON,
+      "Less of GenericTuple, GenericSet, UnionSet, Dict, Relation and the sort-based consumers (orderby, rank, min/max) are not under contract; "
+      "`aValue(v)` (v is one of the 18 value types) is assumed." + NOTE_COMMON,
+      "DESIGN.md 4.C06, 10")
+claim("C07",
+      "Order-independence proof for the set builders: asString/asArray/asBytes (and the iteration model in general) are verified with the enumeration "
+      "order of maps and frozen sets left unconstrained, and their postconditions describe the result as a function of the SET of tuples given; the "
+      "order-dependent last-wins behaviour on duplicate indices is a known finding." + COMMON,
+      "Only the builder half of the property: SetPattern, Rank/OrderBy, printing order and the absence of other seed channels are not decided." + NOTE_COMMON,
+      "DESIGN.md 4.C07, 10, 11")
+claim("C08",
+      "Evaluation-level equivalences: ArrowExpr.Eval and Closure.CallAll/Function.Eval are proved against one predicate (e1 -> \\p e2 = (\\p e2)(e1) = let), "
+      "ExprAsFunction is the \\. binder, and If/And/Or evaluate only the branches they select (append-only ghost log of evaluations)." + COMMON,
+      "Grammar-level clauses (comments, whitespace, parentheses, precedence, substitution), literal folding and CondExpr are not decided." + NOTE_COMMON,
+      "DESIGN.md 4.C08, 10, 11")
+claim("C09",
+      "Per-pattern Bind contracts: Ident/ExtraElement/Expr/Fallback patterns, PatternExprPair, first-matching-arm semantics of cond with the arm's bindings, "
+      "Scope.MatchedUpdate against a scope model, ArrayPattern.Bind's safety and shape clauses, DictPattern safety; wrong bindings of the unchanged tree "
+      "(offsets ignored, holes read as values, repeated names compared by text, Bind errors swallowed) are known findings." + COMMON,
+      "ArrayPattern's per-item clauses are parked (not claimed); TuplePattern/SetPattern.Bind are not under contract; Expr.Eval/Pattern.Bind are interface-level assumed meanings." + NOTE_COMMON,
+      "DESIGN.md 4.C09, 10, 11")
+claim("C10",
+      "Absence of run-time panics (index/slice bounds, nil dereference, unchecked type assertion, division by zero, negative make, nil-map write, explicit "
+      "panic) in ~500 functions under contract, from preconditions that callers are checked against; crashes of the unchanged tree reachable from arr.ai "
+      "programs are known findings with regions." + COMMON,
+      "Parser, import-cycle hang, recursion depth and functions using recover/unsafe are outside; nil-ness of receivers/fields is a type-invariant precondition assumed at interface calls." + NOTE_COMMON,
+      "DESIGN.md 4.C10, 10")
+claim("C11",
+      "Ownership contracts: every store to a lazily cached field/variable (GenericTuple names/buckets, positionalRelation metadata, std scopes) happens "
+      "with its sync.Once/Mutex held, reads happen after the guard completed, and function literals run concurrently by the frozen library write no captured "
+      "variable (two that do are known findings)." + COMMON,
+      "Schedules, serial equivalence, the import cache protocol and other lazily initialised state are not decided." + NOTE_COMMON,
+      "DESIGN.md 4.C11, 10")
+claim("C12",
+      "String-literal reader proved against a unit-by-unit decoding function (boundary invariant, per-iteration step incl. the post statement, termination, all "
+      "indexing in bounds) with its defects as known findings (skips after numeric escapes, panics on short/invalid escapes); structural facts of the printers "
+      "(offset prefixes, separators) via a ghost output string." + COMMON,
+      "Per-rune escape round trip of reprEscape, Dict/Relation/Tuple Format and number text are not decided; the lexer guarantee lexOK(s) is assumed." + NOTE_COMMON,
+      "DESIGN.md 4.C12, 10")
+claim("C13",
+      "//bits.set safety/termination/error clause, Translator.FromArrai error clauses and jsonEscape/jsonUnescape kind clauses, with the silent changes and crashes "
+      "of the unchanged tree as known findings." + COMMON,
+      "mask∘set round trip, ToArrai, CSV/YAML and the halves inside encoding/json are not decided; bit-operation axioms are assumed." + NOTE_COMMON,
+      "DESIGN.md 4.C13, 10, 11")
 claim("C14",
-      "Deductive proof, per function and for all inputs, of the //seq array matchers against the textbook window definition: search returns a position where the pattern occurs (soundness) with all index arithmetic in bounds; obligations generated from the SSA of the real functions on every run.",
-      "Proved: the clauses tagged C14 in syntax/verif_contracts.go. Assumed: the interface-level meaning of Value.Equal as a pure function eq(a,b); mathematical integers. Not decided here: string/bytes branches that delegate to the Go strings/bytes packages.",
-      "DESIGN.md 4.C14")
+      "//seq array matchers against the textbook window definition: search (sound, least, complete, terminating — its restart defect is a known finding), "
+      "contains/has_prefix/has_suffix/trim for dense arrays, safety+frame+termination of join/split/sub/repeat, dispatch wrappers return errors on mismatched kinds." + COMMON,
+      "String/Bytes branches rely on assumed contracts of strings/bytes; functional join/split/sub are not claimed." + NOTE_COMMON,
+      "DESIGN.md 4.C14, 10")
+claim("C16",
+      "Confinement: on every path of compilePackage/importLocalFile that reaches a file reader the path satisfies underdir(path, importroot), from uninterpreted "
+      "path predicates and assumed lemmas about path.Clean/filepath.Join/strings.* (checked against the Go library on 87k strings); the whitespace-trim escape is a known finding." + COMMON,
+      "Equal values for different spellings, cycle detection and symlinks are not decided; the path lemmas are assumptions about the Go library." + NOTE_COMMON,
+      "DESIGN.md 4.C16, 10")
+claim("C17",
+      "The actor loop of the engine verified arm by arm: exactly one reply per update request, state installed iff the update succeeded, every watcher notified with "
+      "the new state, no send on an actor-only channel from the actor goroutine, non-nil watcher before close (the wedge and the double-cancel crash are known findings)." + COMMON,
+      "Client interleavings and cross-goroutine ordering are not decided; channel operations are events, `go`/`select` are not interleaved." + NOTE_COMMON,
+      "DESIGN.md 4.C17, 10")
+claim("C18",
+      "Authority contracts: `auth` is required by the full library, file/network/exec operations; every Eval implementer, the //eval bodies and every native function "
+      "registered in the safe library is verified without it (static call-graph propagation for helpers); the escapes of the unchanged tree are known findings." + COMMON,
+      "The classification table of authority-bearing dependency functions (95_auth.spec) is an assumption; functional scope equality of contextualEval is not decided." + NOTE_COMMON,
+      "DESIGN.md 4.C18, 10")
+claim("C19",
+      "Effect contracts on pkg/arrai/out.go with ghost filesystem state: dry run performs no mutation, every mutated path stays under PATH, unsupported entries are "
+      "errors, validation precedes effects, mutator/observer errors are propagated; seven defects of the unchanged tree are known findings." + COMMON,
+      "Byte-exact tree equality and deferred Close errors are not decided; afero methods are classified by assumed extern contracts." + NOTE_COMMON,
+      "DESIGN.md 4.C19, 10")
+claim("C20",
+      "calcStats totals and runFailed, Report's error iff failure, literal true/false classification, one result per leaf, ForeachLeaf recursion with a callback "
+      "contract (nil leaves from sparse arrays are a known finding)." + COMMON,
+      "Directory walk, report formatting and path strings are not decided." + NOTE_COMMON,
+      "DESIGN.md 4.C20, 10")
 
-for p in ["C01", "C02", "C03", "C04", "C05", "C06", "C07", "C08", "C09", "C10", "C11", "C12", "C13", "C16", "C17", "C18", "C19", "C20"]:
-    NA[p] = PENDING
 NA["C15"] = "whole-pipeline equality of two executions (bundle vs. source tree) through archive/zip, afero zipfs, filepath and the module cache: no per-function contract within reach expresses it without a filesystem model, and proving a model is a different technique (DESIGN.md section 5)"
